@@ -342,6 +342,16 @@ def main(prop, modname, level="other", argv=None, extra_assumptions=(), trusted_
         if len(confirmed) >= 10:
             break
 
+    # verdict lines must start at the beginning of a line even when stderr (twisted's "Unhandled error in Deferred" noise from garbage
+    # collection, tracebacks of worker processes) shares the terminal/pipe: collect garbage now, flush, and start on a fresh line
+    import gc
+    gc.collect()
+    try:
+        sys.stderr.flush()
+    except Exception:
+        pass
+    sys.stdout.write("\n")
+    sys.stdout.flush()
     for key, msg in known_hit.items():
         print("KNOWN-FINDING: property=%s %s -- %s" % (prop, key, msg))
     for path, key, msg in confirmed:
@@ -389,7 +399,8 @@ def main(prop, modname, level="other", argv=None, extra_assumptions=(), trusted_
         return 1
     if inconclusive or nonrepro:
         return 2
-    print("PASS property=%s" % prop)
+    sys.stdout.flush()
+    print("PASS property=%s" % prop, flush=True)
     return 0
 
 
